@@ -44,6 +44,7 @@ def SUM(*alts):
     return ("sum", {a[0]: (a[1], a[2]) for a in alts})
 
 
+ERR = ("err",)
 STR = L(Z)
 CFROW = REC("Build_cf_row", Z, Z, L(Z), B, Z)
 ZROW = P(Z, Z)
@@ -80,7 +81,67 @@ SPEC = {
     "c09.trace": ([FSCFG], "fs_run_trace", L(P(NAT, FNAME))),
     "c09.verify": ([B, Z, L(P(FNAME, STR))], "fs_verify", O(L(P(FNAME, STR)))),
 }
-IMPORTS = "Model.Base Model.Tdc Model.Merge Model.Digest Model.PinTsv Model.Confidence Model.Calibrate Model.Brew Model.PinCols Model.Fs"
+FDK = E("FdCorrect", "FdNull")
+PKP = REC("Build_pk_proteins", L(P(STR, STR)), L(STR), L(P(STR, STR)), B, STR)
+PKROW = REC("Build_pk_row", B, STR, Z)
+PKENTRY = REC("Build_pk_entry", STR, STR, STR, Z, B)
+QOUT = SUM((0, "PepFinite", [L(Q)]), (1, "PepAllInf", [NAT]))
+SPEC.update({
+    "c04.fdp": ([Q, L(FDK), L(B)], "(fun a r w => (fd_fdp a r w, (fdp_via_tdc a r w, fd_ratio a r w)))", P(Q, P(Q, Q))),
+    "c04.sums": ([Q, L(FDK)], "(fun a r => (fd_qsum (map (fd_fdp a r) (fd_labs (fd_count_n r))), "
+                              "fd_qsum (map (fd_ratio a r) (fd_labs (fd_count_n r)))))", P(Q, Q)),
+    "c06.mono": ([B, L(Q)], "pep_monotonize_simple", L(Q)),
+    "c06.interp": ([L(Z), L(Q), L(Z)], "pep_interp_all", R(L(Q))),
+    "c06.qvality": ([L(Z), L(B), L(Q)], "pep_qvality", R(L(Q))),
+    "c06.qvality_sorted": ([L(Q)], "pep_qvality_sorted_order", L(Q)),
+    "c06.nnls": ([B, L(Z), L(B), L(Z), L(Q)], "pep_nnls_peps", R(L(Q))),
+    "c06.counts": ([L(Z), L(B), L(P(Z, B)), Q], "pep_qvalues_from_counts", R(QOUT)),
+    "c06.frompeps": ([L(Z), L(B), L(P(Z, P(B, Q)))], "pep_qvalues_from_peps", R(L(Q))),
+    "c07.decide": ([Q, L(P(NAT, B)), L(P(L(Z), L(B)))],
+                   "(fun thr ms fs => match bd_pred_total thr fs with Ok pt => Ok (pt, bd_decide ms pt) | Err e => Err e end)",
+                   R(P(NAT, O(NAT)))),
+    "c07.best_feature": ([Q, L(L(Z)), L(B)], "(fun thr feats tg => bd_best_feature feats tg thr)", O(P(P(NAT, NAT), B))),
+    "c14.merge_stream": ([B, L(L(ZROW))], "mg_merge_stream_z", P(L(ZROW), O(ERR))),
+    "c15.unmod": ([STR], "st_unmod", STR),
+    "c15.unprefix": ([STR], "st_unprefix", STR),
+    "c15.before_dot": ([STR], "st_before_dot", STR),
+    "c15.core": ([STR], "st_core", STR),
+    "c15.strip_all": ([L(STR)], "st_strip_all", L(STR)),
+    "c15.pair_key": ([PKP, STR], "pk_pair_key", STR),
+    "c15.prefix_members": ([STR, STR], "pk_prefix_members", STR),
+    "c15.picked": ([PKP, L(P(STR, STR)), L(NAT), L(PKROW)], "pk_picked", R(L(PKENTRY))),
+    "c15.picked_q": ([PKP, L(P(STR, STR)), L(NAT), L(PKROW)], "pk_picked_q", R(L(P(PKENTRY, Q)))),
+    "c16.group": ([NAT, L(P(STR, L(NAT))), L(P(NAT, L(L(STR))))], "gr_group_str",
+                  R(P(L(P(L(STR), L(NAT))), L(P(NAT, L(L(STR))))))),
+    "c18.wrap70": ([STR], "fa_wrap70", L(STR)),
+    "c18.sites": ([STR, STR], "dc_sites", L(NAT)),
+    "c18.parse": ([L(STR)], "fa_parse_files", R(L(P(STR, STR)))),
+    "c20.insert_mods": ([STR, L(P(Z, STR))], "px_insert_mods", STR),
+    "c20.label": ([STR, STR, L(STR)], "px_label", B),
+    "c20.file_name": ([STR, STR], "px_file_name", STR),
+})
+def T(*ts):
+    """right-nested pairs"""
+    return ts[0] if len(ts) == 1 else P(ts[0], T(*ts[1:]))
+
+
+OZ = O(Z)
+PXHIT = REC("Build_px_hit", STR, STR, OZ, OZ, OZ, OZ, L(L(P(Z, STR))), L(STR), L(P(STR, STR)))
+PXSPEC = REC("Build_px_spectrum", OZ, OZ, OZ, OZ, L(L(PXHIT)))
+PXRUN = REC("Build_px_run", STR, O(STR), L(PXSPEC))
+PXFILE = REC("Build_px_file", L(PXRUN), B)
+SPEC.update({
+    "c16.read_fasta": ([NAT, STR, L(P(STR, L(NAT)))],
+                       "(fun k pre es => match gr_read_fasta_str k pre es with Ok o => Ok (@gr_unique _ o, (@gr_shared _ o, "
+                       "(@gr_protein_map _ o, @gr_has_decoys _ o))) | Err e => Err e end)",
+                       R(T(L(P(NAT, L(STR))), L(P(NAT, L(L(STR)))), L(P(STR, STR)), B))),
+    "c20.read": ([STR, L(PXFILE)],
+                 "(fun pre fs => match px_read pre fs with Ok l => Ok (map (fun p => (p_file p, (p_scan p, (p_charge p, (p_rt p, "
+                 "(p_exp p, (p_calc p, (p_peptide p, (p_proteins p, (px_join_tab (p_proteins p), (p_label p, (p_mc p, (p_ntt p, "
+                 "(p_nmp p, p_scores p)))))))))))))) l) | Err e => Err e end)",
+                 R(L(T(STR, Z, Z, Z, Z, Z, STR, L(STR), STR, B, OZ, OZ, OZ, L(P(STR, STR)))))),
+})
+IMPORTS = "Model.Base Model.Tdc Model.Merge Model.Digest Model.PinTsv Model.Confidence Model.Calibrate Model.Brew Model.PinCols Model.Fs Model.Fdr Model.Peps Model.BrewDecision Model.Strip Model.Picked Model.Grouping Model.Fasta Model.Decoys Model.Pepxml"
 
 
 class _Toks:
@@ -121,7 +182,7 @@ def parse(t, ty):
         if t.nxt() == "0":
             return ("ok", parse(t, ty[1]))
         return ("err", int(t.nxt()))
-    if k == "enum":
+    if k == "enum" or k == "err":
         return int(t.nxt())
     if k == "rec":
         return [parse(t, f) for f in ty[2]]
@@ -160,6 +221,8 @@ def lit(v, ty):
         return "(Ok %s)" % lit(v[1], ty[1]) if v[0] == "ok" else "(Err %s)" % ERRS[v[1]]
     if k == "enum":
         return ty[1][v]
+    if k == "err":
+        return ERRS[v]
     if k == "rec":
         return "(%s %s)" % (ty[1], " ".join(lit(x, f) for x, f in zip(v, ty[2])))
     if k == "proj":
@@ -172,8 +235,14 @@ def lit(v, ty):
 
 def norm(ty):
     """Coq function that brings a computed value into the form the driver prints"""
-    if ty in (Z, NAT, B) or ty[0] in ("enum", "rec", "sum"):
+    if ty in (Z, NAT, B) or ty[0] in ("enum", "rec", "err"):
         return "(fun x => x)"
+    if ty[0] == "sum":
+        alts = []
+        for tag, (ctor, fields) in sorted(ty[1].items()):
+            vs = ["a%d" % j for j in range(len(fields))]
+            alts.append("| %s %s => %s %s" % (ctor, " ".join(vs), ctor, " ".join("(%s %s)" % (norm(f), v) for f, v in zip(fields, vs))))
+        return "(fun x => match x with %s end)" % " ".join(alts)
     if ty == Q:
         return "Qred"
     k = ty[0]
